@@ -576,12 +576,15 @@ class PeerConnection:
                         self._read_buffer = self._read_buffer[msg_header.length:]
 
                 except Exception as e:
-                    if msg_header and len(self._read_buffer) >= msg_header.length:
+                    # a frame can only be skipped if its length field covers
+                    # at least the message header, otherwise no bytes would
+                    # be consumed and there is nothing to resynchronise on
+                    if (msg_header and
+                            msg_header.length_header <= msg_header.length <= len(self._read_buffer)):
                         self.logger.warning(
                             f"received garbage: {e}, discarding {msg_header.length} "
                             f"bytes")
                         self._read_buffer = self._read_buffer[msg_header.length:]
-                        continue
                     else:
                         self.logger.warning(
                             f"queue contains only garbage: {e}, closing connection")
